@@ -13,7 +13,7 @@ A history is a list of ops:
 After every command the runner waits for quiescence (flush queue empty, WAL thread drained) unless parked.
 The step-point trace (crash-surviving file) is mapped to model labels; the model replays them.
 """
-import json, os, re, threading, concurrent.futures
+import json, os, re, time, threading, concurrent.futures
 import engine, vlib
 
 FW_MAP = {"fw_begin": "fb", "fl_dir_created": "fm", "fl_index_entry_added": "fi", "fw_published": "fp", "fw_passive_cleared": "fc",
@@ -58,7 +58,59 @@ class Run:
             if uid:
                 self.uidmap[uid] = u
         self.tokens.append("k%d" % int(self.cfg.get("segments_per_merge", 2)))
+        if getattr(self, "watch", False):
+            self.watch_index_start()
         return self
+
+    # ---- the shard's segment index must only ever be replaced by a rename onto it (C11: "atomically replace the
+    # shard's segment index"): an inotify watcher on <root>/cols records every time segments.idx is moved away or
+    # deleted.  Started after the engine created its shard directories, stopped before the result is built.
+    def watch_index_start(self):
+        import subprocess
+        cols = os.path.join(self.eng.root, "cols")
+        if not os.path.isdir(cols):
+            self.notes.append("index watcher: no cols directory yet")
+            return
+        self.watch_log = os.path.join(self.eng.root, "inotify.log")
+        try:
+            self.watch_p = subprocess.Popen(
+                ["inotifywait", "-m", "-r", "-e", "moved_from", "-e", "moved_to", "-e", "delete", "-e", "create",
+                 "--format", "%e %w%f", "-o", self.watch_log, cols],
+                stdout=subprocess.DEVNULL, stderr=subprocess.PIPE, text=True, preexec_fn=vlib.die_with_parent)
+        except FileNotFoundError:
+            self.notes.append("index watcher: inotifywait is not installed")
+            self.watch_p = None
+            return
+        for _ in range(50):
+            line = self.watch_p.stderr.readline()
+            if not line or "Watches established" in line:
+                break
+
+    def watch_index_stop(self):
+        p = getattr(self, "watch_p", None)
+        if not p:
+            return None
+        time.sleep(0.05)
+        p.terminate()
+        try:
+            p.wait(timeout=5)
+        except Exception:
+            p.kill()
+        self.watch_p = None
+        bad, seen = [], set()
+        try:
+            for ln in open(self.watch_log):
+                ev, _, path = ln.strip().partition(" ")
+                if os.path.basename(path) != "segments.idx":
+                    continue
+                shard = os.path.basename(os.path.dirname(path))
+                if ("MOVED_FROM" in ev or "DELETE" in ev) and shard in seen:
+                    bad.append(f"{shard}/segments.idx {ev}")
+                if "MOVED_TO" in ev or "CREATE" in ev:
+                    seen.add(shard)
+        except FileNotFoundError:
+            pass
+        return {"published": sorted(seen), "removed": bad}
 
     def eng_env(self):
         # the engine child inherits SNELDB_VERIF_TRACE through engine.Engine.start's environment
@@ -494,8 +546,13 @@ class Run:
                     self.eng.start()
                     self.observe()
                     self.obs[-1]["after_crash"] = True
-            return self.result()
+            w = self.watch_index_stop()
+            res = self.result()
+            if w is not None:
+                res["idxwatch"] = w
+            return res
         finally:
+            self.watch_index_stop()
             self.eng.destroy()
 
     def result(self):
@@ -507,6 +564,7 @@ class Run:
 
 def run_history(case):
     r = Run(case["cfg"], case["ntypes"], case["nctx"], case.get("tag", ""))
+    r.watch = bool(case.get("watch_index"))
     try:
         return r.run([tuple(o) for o in case["ops"]])
     except Exception as ex:  # harness failure: report, never hide
